@@ -10,12 +10,13 @@ every behaviour through the real HTTP API (router, controllers, storage) over pg
 enforcement mode of the behaviour, and compares outcome class, accounts + metadata, number of logs,
 number of transactions and schema versions after EVERY request.
 
-Where the code was read to deviate from the property statement the model has two outcomes (the
-literal one and the as-read one, named D1 / D2); whichever the real code produces, a deviation
-outcome is reported as a violation of C29 with its own signature:
+Two deviations the code once exhibited (repaired in /repo by b6f2f6a and 054dd07) stay in the model
+as a second, never-followed outcome of the request: behaviours only continue through the outcome the
+property prescribes, and an implementation that produces the deviation outcome again is reported as a
+violation of C29 under the deviation's own signature:
   deviation:D1:audit-rejects-unknown-schema-version:{tx,meta}
   deviation:D2:audit-rejects-plain-postings-on-templated-schema
-  deviation:D3:<mode>-rejected-write-consumes-transaction-id   (ids observed through the API)
+Ids must be distinct; gaps are allowed (C16): a strict-mode rejection burns a transaction id.
 
 usage: python3 checks/C29.py quick|thorough        (VERIF_SEED seeds the sampled parts)
 """
@@ -38,11 +39,8 @@ def run(c):
     binary = vlib.go_build("vh-schema")
     work = vlib.scratch("c29")
     try:
-        follow, probe = sc.calibrate(binary)
-        c.set("calibration", dict(follow=sorted(follow), probe_classes=probe,
-                                  meaning="deviations the real code exhibits; behaviours are continued along them"))
         t0 = time.time()
-        groups, neg = sc.run_tlc_plan(c.tier, c.seed, check=c, follow=follow)
+        groups, neg = sc.run_tlc_plan(c.tier, c.seed, check=c)
         c.set("tlc_wall_s", round(time.time() - t0, 1))
         c.set("theorems_checked", sc.THEOREMS)
 
